@@ -148,11 +148,22 @@ NAMESPACES = [
 ]
 
 
-def mk_form(rows, entities, root=None, namespaces=None):
+# settings that shape the generated meta block (and an audit row, which lands there too)
+META_SETTINGS = [
+    {"omit_instanceID": "yes"}, {"omit_instanceID": "true"}, {"omit_instanceID": "no"}, {"omit_instanceID": "false"},
+    {"instance_name": "concat(${a}, '-x')"}, {"omit_instanceID": "yes", "instance_name": "${a}"},
+    {"omit_instanceID": "true", "instance_name": "'n'"}, {"instance_id": "uuid()"},
+    {"omit_instanceID": "no", "instance_name": "${a}"},
+]
+
+
+def mk_form(rows, entities, root=None, namespaces=None, extra_settings=None, audit=False):
+    if audit:
+        rows = list(rows) + [{"type": "audit", "name": "audit"}]
     form = {"survey": rows, "choices": [dict(c) for c in CHOICES]}
     if entities is not None:
         form["entities"] = entities
-    st = {}
+    st = dict(extra_settings or {})
     if root:
         st["name"] = root
     if namespaces is not None:
@@ -248,6 +259,18 @@ def enumerate_cases(ctx, factor):
                         rows[0]["save_to"] = "pa"
                     ents = None if combo is None else [entity_row(rng, combo)]
                     yield "namespaces-setting", mk_form(rows, ents, namespaces=nsv)
+    # (5c) the meta block: 16 combinations x settings that shape it (omit_instanceID, instance_name) x audit row
+    for combo in [None] + COMBOS:
+        for es in [None] + META_SETTINGS:
+            for audit in (False, True):
+                if quick and combo is not None and es is not None and (sum(combo) + len(es) + audit) % 2 and combo not in VALID_COMBOS[:4]:
+                    continue
+                rows, _ = flatten(TREES[0])
+                rows[0]["save_to"] = "pm"
+                ents = None if combo is None else [entity_row(rng, combo)]
+                if combo is None:
+                    rows[0].pop("save_to")
+                yield "meta-block", mk_form(rows, ents, extra_settings=es, audit=audit)
     # (6) types containing group / repeat as a substring (F25 family) at every question position
     for t in F25_TYPES + PLAIN_TYPES:
         for ti in (0, 1, 2):
@@ -293,7 +316,9 @@ def enumerate_cases(ctx, factor):
                 er[rng.choice(EXTRA_COLS)] = "v"
             ents = [er]
         yield "random", mk_form(rows, ents, root=rng.choice([None, None, "f1", "Form-2"]),
-                                namespaces=rng.choice(NAMESPACES) if rng.random() < 0.2 else None)
+                                namespaces=rng.choice(NAMESPACES) if rng.random() < 0.2 else None,
+                                extra_settings=rng.choice(META_SETTINGS) if rng.random() < 0.25 else None,
+                                audit=rng.random() < 0.15)
 
 
 # ----------------------------------------------------------------------------- observation
@@ -321,6 +346,9 @@ def observe(xform: str, root_name: str) -> dict:
     inst = find(model, "instance")[0]
     prim = [k for k in inst["k"] if "t" in k][0]
     E = f"/{prim['t']}/meta/entity"
+    meta_kids = []
+    for meta in find(prim, "meta"):
+        meta_kids += [k["t"] for k in meta["k"] if "t" in k]
     entity = None
     for meta in find(prim, "meta"):
         for e in find(meta, "entity"):
@@ -359,6 +387,10 @@ def observe(xform: str, root_name: str) -> dict:
         "custom_ns": [[n[len("xmlns:"):], v] for n, v in tree["a"]
                       if n.startswith("xmlns:") and n not in STD_PREFIXES and n != "xmlns:entities"],
         "stray": stray,
+        # children of the generated meta group, in document order ([] when there is no meta element)
+        "meta_kids": meta_kids,
+        # what C19 itself demands of the meta block: the declaration is there iff declared, as the last child
+        "meta_entity": [meta_kids.count("entity"), meta_kids[-1:] == ["entity"]],
     }
 
 
@@ -382,11 +414,15 @@ def canon_out(o: dict) -> dict:
         "xmlns": list(o["xmlns"]) if o.get("xmlns") else None,
         "custom_ns": [list(p) for p in o.get("customNs", [])],
         "stray": [],
+        "meta_kids": list(o.get("metaKids", [])),
+        "meta_entity": [list(o.get("metaKids", [])).count("entity"), list(o.get("metaKids", []))[-1:] == ["entity"]],
     }
 
 
-KEYS = ("entity", "nodes", "saveto", "version", "xmlns", "stray")
-MODEL_KEYS = KEYS + ("custom_ns",)
+KEYS = ("entity", "nodes", "saveto", "version", "xmlns", "stray", "meta_entity")
+# the other meta children (audit / instanceID / instanceName: C04, C11) and the custom namespaces (C11) are compared with
+# the model only
+MODEL_KEYS = KEYS + ("custom_ns", "meta_kids")
 
 
 def diff(a: dict, b: dict, keys=KEYS) -> list[str]:
@@ -473,11 +509,18 @@ def form_case(ctx, label, form):
     r = impl.run(form)
     sv = survey_cells(form["survey"])
     nsv = namespaces_of(form)
-    mkw = {"namespaces": nsv} if nsv is not None else {}
+    st = (form.get("settings") or [{}])[0]
+    mkw = {"settings": [[k, str(v)] for k, v in st.items() if v not in (None, "")]}
+    # the harness's own reading of what shapes the meta block
+    meta_cfg = {
+        "audit": any(r.get("type") == "audit" for r in form["survey"]),
+        "omit_instanceID": str(st.get("omit_instanceID", "")).lower() in ("yes", "true"),
+        "instance_name": bool(st.get("instance_name")),
+    }
     model = ctx.driver.call("entities.model", root=root, entities=ent_cells_raw(form.get("entities")), survey=sv, **mkw)
     skw = {"user_entities_ns": user_entities_ns(nsv)} if user_entities_ns(nsv) is not None else {}
     spec = ctx.driver.call("entities.spec", root=root, version=entities_version(),
-                           entities=ent_cells_spec(form.get("entities")), survey=sv, **skw)
+                           entities=ent_cells_spec(form.get("entities")), survey=sv, **skw, **meta_cfg)
     ctx.count(f"{label}: impl:{r['class']}/spec:{spec['outcome']}/model:{model['outcome']}")
     case = {"label": label, "form": form}
     obs = None
